@@ -109,9 +109,12 @@ def judge(text):
             return "an accessor of a returned object raised %s: %s" % (type(e).__name__, e), None
     if len(set(keys)) != len(keys):
         return "returned two equal objects", None
-    for a, b in itertools.combinations(got, 2):
-        if a == b:
-            return "returned two objects that compare equal", None
+    if len(set(got)) != len(got):
+        return "returned two objects that are equal and hash alike", None
+    if len(got) <= 700:
+        for a, b in itertools.combinations(got, 2):
+            if a == b:
+                return "returned two objects that compare equal", None
     req = required(text)
     for k, s in req.items():
         if k not in keys:
@@ -140,7 +143,8 @@ def check_text(acc, text):
     acc["cmp"] += 4
     why, obs = judge(text)
     if why:
-        sweep.bad(acc, {"what": "parse_cvss_from_text(%r): %s" % (text, why), "kind": "extract",
+        shown = repr(text) if len(text) < 400 else "%r...(%d characters)" % (text[:200], len(text))
+        sweep.bad(acc, {"what": "parse_cvss_from_text(%s): %s" % (shown, why), "kind": "extract",
                         "input": text, "signature": {"kind": "extract"}})
         return
     acc["outcomes"].add(obs)
@@ -148,6 +152,37 @@ def check_text(acc, text):
         acc["nontrivial"] += 1
         if len(acc["samples"]) < 1 and obs[0] > 1:
             acc["samples"].append({"text": text, "returned": obs[0], "required": obs[1]})
+
+
+def distinct_full_v3(n):
+    """n distinct v3.1 vectors with all 22 metrics written out (117 characters each)."""
+    ms = ["E", "RL", "RC", "CR", "IR", "AR", "MAV", "MAC"]
+    out = []
+    for combo in itertools.product(*[T.V3[m] for m in ms]):
+        d = dict(zip(ms, combo))
+        out.append("CVSS:3.1/AV:N/AC:L/PR:N/UI:N/S:U/C:H/I:H/A:H/" + "/".join(
+            "%s:%s" % (m, d.get(m, "X")) for m in T.V3_TEMPORAL + T.V3_ENV))
+        if len(out) == n:
+            break
+    return out
+
+
+DENSE = {"quick": 300000, "thorough": 1200000}     # characters of densely packed distinct vectors
+SHIFTS = (0, 39, 78)
+
+
+def dense_text(size, shift):
+    """Distinct 117-character vectors separated by single blanks, `shift` blanks in front: every
+    cut position below `size` lies strictly inside a vector, at least 39 characters from either
+    end, in one of the three shifted texts (a scanner that works in pieces loses that vector)."""
+    return " " * shift + " ".join(distinct_full_v3(size // 118))
+
+
+def _dense_task(t):
+    size, shift = t
+    acc = sweep.new_acc()
+    check_text(acc, dense_text(size, shift))
+    return acc
 
 
 def _long_task(_):
@@ -167,6 +202,10 @@ def _long_task(_):
                  for av in "NALP" for ac in "LH" for pr in "NLH" for sc in "UC") * 3,                     # 96 distinct v3, thrice
         V31FULL + "/" + "A" * 5000, "CVSS:3.1/" * 2000 + V31[9:],
     ]
+    # many distinct vectors, then every one of them again (and a third time in reverse order)
+    many = texts[7].split(" ") + distinct_full_v3(700)
+    texts.append(" ".join(many + many + many[::-1]))
+    texts.append(", ".join(many[:300] + many[:300]))
     for t in texts:
         check_text(acc, t)
     return acc
@@ -197,6 +236,9 @@ def run(ctx, res):
              "é" + V30 + "é" + V2PERM]
     accs += core.task_map(_edit_task, [[e] for e in edits])
     accs += core.task_map(_long_task, [0])
+    accs += core.task_map(_dense_task, [(DENSE[ctx.tier], sh) for sh in SHIFTS])
+    res.coverage["dense_texts"] = {"characters": DENSE[ctx.tier], "shifts": list(SHIFTS),
+                                   "distinct_vectors_each": DENSE[ctx.tier] // 118}
     extra = sweep.new_acc()
     for text in ["", " ", "A" * 26, ":" * 30, "/" * 26, "CVSS:3.1/" * 5, V2MIN * 3, (V2MIN + " ") * 20,
                  "CVSS:3.1/" + "A" * 25, "CVSS:3.1/" + "A" * 26, V31[:-1], V2MIN[:-1], V2MIN + "x"]:
